@@ -160,9 +160,16 @@ def rule_M8(chk, lib):
                         length[mname] = to_term(i0["a"][0], decls, T)
                 else:
                     bound_text[mname] = None
+            sites += 1
+            # a range-for over a bound container visits exactly its elements: an instance that holds by construction
+            for meth in methods.get(c["cls"], []):
+                for lp in C.walk_stmt(meth["body"]):
+                    if lp.get("k") == "ForRange" and C.member_name(lp.get("range")) in p2m.values():
+                        n += 1
+                        chk.ok("M8", "%s::%s walks %s with a range-for (bounded by the container itself)" %
+                               (c["cls"], meth["name"], C.member_name(lp["range"])), where(lp, meth))
             if not length:
                 continue
-            sites += 1
             mm = {m_: bound_text.get(m_) for m_ in p2m.values()}
             for meth in methods.get(c["cls"], []):
                 mdecls = _decls_of(meth)
